@@ -858,6 +858,291 @@ func (g *gen) groupPool(n int, steps int) {
 	}
 }
 
+// C03: the same operation on a text and on its cluster-for-cluster substitution
+var relSrc = []string{"a", "b", "c", "x", "y", "\u00e9", "e\u0301", "\uac01", "\u4e2d", "7", "Q", "k"}
+var relDst = []string{"e\u0301", "\U0001F468\u200d\U0001F469\u200d\U0001F467", "\U0001F1E9\U0001F1EA", "\u1100\u1161\u11a8",
+	"\U0001D11E", "\U0001F44D\U0001F3FD", "z", "\u00e9", "\u0915\u093f", "\u4e2d", "R", "9", "\uac01"}
+
+type relText struct {
+	parts []string // clusters and whitespace/separator pieces
+	sub   []bool   // substitutable?
+}
+
+func (t relText) str(rho map[string]string) string {
+	var sb strings.Builder
+	for i, p := range t.parts {
+		if t.sub[i] && rho != nil {
+			sb.WriteString(rho[p])
+		} else {
+			sb.WriteString(p)
+		}
+	}
+	return sb.String()
+}
+
+func (g *gen) relWord(t *relText, maxLen int) {
+	n := 1 + g.r.Intn(maxLen)
+	if g.chance(0.1) {
+		n += g.r.Intn(10)
+	}
+	for i := 0; i < n; i++ {
+		t.parts = append(t.parts, relSrc[g.r.Intn(len(relSrc))])
+		t.sub = append(t.sub, true)
+	}
+}
+
+func (g *gen) relLine(t *relText, maxWords int) {
+	nw := g.r.Intn(maxWords + 1)
+	if g.chance(0.15) {
+		t.parts = append(t.parts, g.ws(0))
+		t.sub = append(t.sub, false)
+	}
+	for i := 0; i < nw; i++ {
+		if i > 0 {
+			t.parts = append(t.parts, g.ws(0))
+			t.sub = append(t.sub, false)
+		}
+		g.relWord(t, 6)
+	}
+	if g.chance(0.15) {
+		t.parts = append(t.parts, g.ws(0))
+		t.sub = append(t.sub, false)
+	}
+}
+
+func (g *gen) relTextGen(lineSep string, maxLines int) relText {
+	var t relText
+	nl := g.r.Intn(maxLines + 1)
+	for i := 0; i < nl; i++ {
+		if i > 0 {
+			t.parts = append(t.parts, lineSep)
+			t.sub = append(t.sub, false)
+		}
+		g.relLine(&t, 5)
+	}
+	if g.chance(0.25) {
+		t.parts = append(t.parts, lineSep)
+		t.sub = append(t.sub, false)
+	}
+	return t
+}
+
+func (g *gen) groupRel(n int) {
+	for i := 0; i < n; i++ {
+		rho := map[string]string{}
+		var rhoEnc []string
+		for _, s := range relSrc {
+			d := relDst[g.r.Intn(len(relDst))]
+			if g.chance(0.2) {
+				d = s
+			}
+			rho[s] = d
+			rhoEnc = append(rhoEnc, encText(s)+">"+encText(d))
+		}
+		var o rosed.Options
+		ls := "\n"
+		if g.chance(0.3) {
+			o.LineSeparator = []string{"\r\n", "|", "<+>"}[g.r.Intn(3)]
+			ls = o.LineSeparator
+		}
+		o.NoTrailingLineSeparators = g.chance(0.3)
+		o.JustifyLastLine = g.chance(0.3)
+		o.TableBorders = g.chance(0.5)
+		o.PreserveParagraphs = g.chance(0.2)
+		t := g.relTextGen(ls, 4)
+		cc := clusterCount(t.str(nil))
+		mk := func(f func(r map[string]string) string) (string, string) { return f(nil), f(rho) }
+		var s1, s2 string
+		switch g.r.Intn(14) {
+		case 0:
+			w := g.width()
+			s1, s2 = mk(func(map[string]string) string { return fmt.Sprintf("wrap,%%d,%d,=", w) })
+		case 1:
+			w := g.width()
+			s1, s2 = mk(func(map[string]string) string { return fmt.Sprintf("justify,%%d,%d,=", w) })
+		case 2:
+			w, al := g.width(), 1+g.r.Intn(3)
+			s1, s2 = mk(func(map[string]string) string { return fmt.Sprintf("align,%%d,%d,%d,=", al, w) })
+		case 3:
+			s1, s2 = "collapse,%d,=", "collapse,%d,="
+		case 4:
+			var x relText
+			g.relWord(&x, 4)
+			p := g.pos(cc)
+			s1, s2 = mk(func(r map[string]string) string { return fmt.Sprintf("insert,%%d,%s,%s", encInt(p), encText(x.str(r))) })
+		case 5:
+			a, b := g.pos(cc), g.pos(cc)
+			s1, s2 = mk(func(map[string]string) string { return fmt.Sprintf("delete,%%d,%s,%s", encInt(a), encInt(b)) })
+		case 6:
+			var x relText
+			g.relWord(&x, 4)
+			p := g.pos(cc)
+			s1, s2 = mk(func(r map[string]string) string { return fmt.Sprintf("overtype,%%d,%s,%s", encInt(p), encText(x.str(r))) })
+		case 7:
+			a, b := g.pos(cc), g.pos(cc)
+			s1, s2 = mk(func(map[string]string) string { return fmt.Sprintf("chars,%%d,%s,%s", encInt(a), encInt(b)) })
+		case 8, 9:
+			l, r := g.relTextGen(ls, 2), g.relTextGen(ls, 2)
+			p, gap, w, pc := g.pos(cc), g.r.Intn(4), g.width(), encPct(g.pct())
+			s1, s2 = mk(func(rr map[string]string) string {
+				return fmt.Sprintf("twocol,%%d,%s,%s,%s,%d,%d,%s,=", encInt(p), encText(l.str(rr)), encText(r.str(rr)), gap, w, pc)
+			})
+		case 10, 11:
+			nd := 1 + g.r.Intn(3)
+			terms := make([]relText, nd)
+			dfs := make([]relText, nd)
+			for j := range terms {
+				g.relWord(&terms[j], 5)
+				dfs[j] = g.relTextGen(ls, 2)
+			}
+			p, w := g.pos(cc), g.width()
+			s1, s2 = mk(func(rr map[string]string) string {
+				d := make([][2]string, nd)
+				for j := range d {
+					d[j] = [2]string{terms[j].str(rr), dfs[j].str(rr)}
+				}
+				return fmt.Sprintf("deftable,%%d,%s,%s,%d,=", encInt(p), encDefs(d), w)
+			})
+		default:
+			nr := 1 + g.r.Intn(3)
+			cells := make([][]relText, nr)
+			for j := range cells {
+				cells[j] = make([]relText, g.r.Intn(4))
+				for q := range cells[j] {
+					if !g.chance(0.2) {
+						g.relWord(&cells[j][q], 4)
+					}
+				}
+			}
+			p, w := g.pos(cc), g.width()
+			s1, s2 = mk(func(rr map[string]string) string {
+				d := make([][]string, nr)
+				for j := range d {
+					d[j] = make([]string, len(cells[j]))
+					for q := range d[j] {
+						d[j][q] = cells[j][q].str(rr)
+					}
+				}
+				return fmt.Sprintf("table,%%d,%s,%s,%d,=", encInt(p), encTable(d), w)
+			})
+		}
+		steps := []string{g.editStep(t.str(nil), o), fmt.Sprintf(s1, 0), "charcount,1", "linecount,1",
+			g.editStep(t.str(rho), o), fmt.Sprintf(s2, 4), "charcount,5", "linecount,5"}
+		g.emit("rel", strings.Join(rhoEnc, "/"), strings.Join(steps, ";"))
+	}
+}
+
+// gem.String histories. withReverse=false: exactly the operations C19 quantifies over.
+func (g *gen) groupHist(n int, steps int, withReverse bool) {
+	seeds := [][]rune{
+		{}, {'a'}, {'a', 'b', 'c'}, {'e', 0x301, 'x'}, {0x301, 'a'}, {0x200d}, {0x1F1E9, 0x1F1EA, 0x1F1E9},
+		{0x1F468, 0x200D, 0x1F469, 0x200D, 0x1F467, 'z'}, {0x0d, 0x0a, 0x0d}, {' ', 0x301, ' ', 'q', ' '},
+		{0x600, 'a', 0x600}, {0x1100, 0x1161, 0x11a8, 0xac01, 0x11a8}, {-5, 0x110000, 0xD800, 'k'}, {0x93f, 0x915, 0x93f},
+		{' ', ' ', 'a', ' '}, {'\t', 0xa0, 'b'},
+	}
+	pieces := [][]rune{{'X'}, {0x301}, {0x200d, 0x1F467}, {0x1F1E9}, {' '}, {'y', 0x308}, {0x0a}, {0x600}}
+	for i := 0; i < n; i++ {
+		var st []string
+		nseed := 1 + g.r.Intn(3)
+		for k := 0; k < nseed; k++ {
+			switch g.r.Intn(8) {
+			case 0:
+				st = append(st, "zero")
+			case 1:
+				st = append(st, "zv")
+			default:
+				st = append(st, "new,"+encRunes(seeds[g.r.Intn(len(seeds))]))
+			}
+		}
+		for len(st) < steps {
+			src := g.r.Intn(len(st))
+			if g.chance(0.4) {
+				src = len(st) - 1
+			}
+			nops := 12
+			if withReverse {
+				nops = 15
+			}
+			switch g.r.Intn(nops) {
+			case 0, 1:
+				st = append(st, fmt.Sprintf("add,%d,%d", src, g.r.Intn(len(st))))
+			case 2, 3:
+				st = append(st, fmt.Sprintf("sub,%d,%d,%d", src, g.r.Intn(13)-6, g.r.Intn(13)-6))
+			case 4:
+				st = append(st, fmt.Sprintf("setcharat,%d,%d,%s", src, g.r.Intn(6)-1, encRunes(pieces[g.r.Intn(len(pieces))])))
+			case 5:
+				st = append(st, fmt.Sprintf("repeat,%d,%d", src, g.r.Intn(4)-1))
+			case 6:
+				st = append(st, fmt.Sprintf("len,%d", src))
+			case 7:
+				st = append(st, fmt.Sprintf("charat,%d,%d", src, g.r.Intn(6)-1))
+			case 8:
+				st = append(st, fmt.Sprintf("gi,%d", src))
+			case 9:
+				st = append(st, fmt.Sprintf("runes,%d", src))
+			case 10:
+				st = append(st, "new,"+encRunes(seeds[g.r.Intn(len(seeds))]))
+			case 11:
+				st = append(st, "zero")
+			case 12:
+				st = append(st, fmt.Sprintf("reverse,%d", src))
+			case 13:
+				st = append(st, fmt.Sprintf("indexfunc,%d", src))
+			default:
+				st = append(st, fmt.Sprintf("lastindexfunc,%d", src))
+			}
+		}
+		g.emit("hist", strings.Join(st, ";"))
+	}
+}
+
+// C20 monitor: ordinary editor programs, observed only through the package-level cell
+func (g *gen) groupProgZ(n int) {
+	for i := 0; i < n; i++ {
+		mode := g.modeFor()
+		o, ls, ps := g.opts(mode)
+		t := g.text(mode, ls, ps)
+		if g.chance(0.3) {
+			o.PreserveParagraphs = true
+		}
+		if g.chance(0.25) {
+			// whitespace-only and empty paragraphs between separators with visible affixes
+			o.PreserveParagraphs = true
+			o.ParagraphSeparator = []string{"<P>\n</P>", "\n--\n", "||"}[g.r.Intn(3)]
+			ps = o.ParagraphSeparator
+			parts := []string{g.line(mode, 2), " ", "", g.line(mode, 3), "  "}
+			g.r.Shuffle(len(parts), func(a, b int) { parts[a], parts[b] = parts[b], parts[a] })
+			t = strings.Join(parts[:2+g.r.Intn(4)], ps)
+		}
+		var step string
+		switch g.r.Intn(12) {
+		case 0:
+			step = fmt.Sprintf("wrap,0,%d,%s", g.width(), g.optsArg(o))
+		case 1:
+			step = fmt.Sprintf("justify,0,%d,%s", g.width(), g.optsArg(o))
+		case 2, 3, 4:
+			step = fmt.Sprintf("align,0,%d,%d,%s", 1+g.r.Intn(3), g.width(), g.optsArg(o))
+		case 5:
+			step = "collapse,0," + g.optsArg(o)
+		case 6:
+			step = fmt.Sprintf("chars,0,%s,%s", encInt(g.pos(8)), encInt(g.pos(8)))
+		case 7:
+			step = fmt.Sprintf("insert,0,%s,%s", encInt(g.pos(8)), encText(g.word(mode, 3)))
+		case 8:
+			step = fmt.Sprintf("twocol,0,%s,%s,%s,%d,%d,%s,%s", encInt(g.pos(4)), encText(g.para(mode, ls, 2)), encText(g.para(mode, ls, 2)), g.r.Intn(4), g.width(), encPct(g.pct()), g.optsArg(o))
+		case 9:
+			data := [][]string{{g.word(mode, 3), ""}, {"", g.word(mode, 3)}}
+			step = fmt.Sprintf("table,0,%s,%s,%d,%s", encInt(g.pos(4)), encTable(data), g.width(), g.optsArg(o))
+		case 10:
+			defs := [][2]string{{g.word(mode, 4), g.line(mode, 5)}, {"", ""}}
+			step = fmt.Sprintf("deftable,0,%s,%s,%d,%s", encInt(g.pos(4)), encDefs(defs), g.width(), g.optsArg(o))
+		default:
+			step = fmt.Sprintf("indent,0,%d,%s", g.r.Intn(3), g.optsArg(o))
+		}
+		g.emit("progz", g.editStep(t, o)+";"+step+";charcount,1;linecount,1")
+	}
+}
+
 func cmdGen(group, tier string, seed int64) int {
 	g := &gen{r: rand.New(rand.NewSource(seed)), out: bufio.NewWriterSize(os.Stdout, 1<<20), tier: tier, pfx: group + "-"}
 	defer g.out.Flush()
@@ -908,6 +1193,14 @@ func cmdGen(group, tier string, seed int64) int {
 		g.groupOptions2(2500 * k)
 	case "A-manip":
 		g.groupManip(3000 * k)
+	case "A-rel":
+		g.groupRel(4000 * k)
+	case "Z-prog":
+		g.groupProgZ(4000 * k)
+	case "H-hist":
+		g.groupHist(600*k, 20, false)
+	case "H-all":
+		g.groupHist(600*k, 20, true)
 	case "POOL":
 		g.groupPool(150*k, 25)
 	default:
